@@ -163,6 +163,10 @@ class FileMover:
         if not override and os.path.lexists(destination_path):
             raise DestinationAlreadyExistsError(source_path, destination_path)
         destination_path.parent.mkdir(parents=True, exist_ok=True)
+        if not override and os.path.lexists(destination_path):
+            # creating the parents can create the destination itself (e.g. "new/.."),
+            # and shutil.move would then move the file *into* that directory
+            raise DestinationAlreadyExistsError(source_path, destination_path)
         shutil.move(str(source_path), destination_path)
 
 
